@@ -5,7 +5,11 @@
 (*   "none"          the process-global stream is consumed (and advances)               *)
 (*   "seedA","seedB" a fresh stream determined by the integer seed, read from its start *)
 (*                   (the driver concretises seedA as the integer 0, seedB as a positive *)
-(*                   integer: 0 is a legal seed that is falsy in Python)                 *)
+(*                   integer: 0 is a legal seed that is falsy in Python).  A seed IS its *)
+(*                   integer VALUE: the driver also spells it draw by draw as python int, *)
+(*                   np.int64, np.int32 or np.uint32 (field ty of a draw, not read here) - *)
+(*                   "seedA" spelled 0 and np.int64(0) is the same stream "A", and a seed  *)
+(*                   of any integer type gives ONE stream for all variables of a model    *)
 (*   "gen1","gen2"   two numpy Generator objects, both created from the same seed C;     *)
 (*                   a draw consumes from the object and advances it                     *)
 (* The POSITION of a stream is the sequence of <<obj, n>> draws it has served so far     *)
